@@ -108,3 +108,13 @@ Theorem C01_code_make_details : details_translated = true -> forall max_pd lens,
    else Slots (map fst (code_selection max_pd lens)) (map snd (code_selection max_pd lens))) = make_details max_pd lens.
 Proof. exact code_make_details_is_model. Qed.
 Print Assumptions C01_code_make_details.
+
+(* the loop nest whose sums the theorems above describe is the one kernel_iq.c builds: its skeleton, read from the
+   current text on every run, is one well-nested stack of levels n-1 .. 0, closed in reverse order *)
+From SM Require Import Gen.C01_loop.
+Theorem C01_code_loop_nest : loop_translated = true ->
+  code_open_order = rev (seq 0 (length code_open_order)) /\
+  code_close_order = rev code_open_order /\
+  code_init_order = code_open_order.
+Proof. exact code_loop_nest_is_model. Qed.
+Print Assumptions C01_code_loop_nest.
